@@ -432,7 +432,7 @@ func init() {
 			}
 			scen := []string{"disjoint", "disjoint-rev", "interleaved", "nested", "identical", "shifted", "random", "random"}
 			sizes := []int{0, 1, 2, 50, 254, 255, 256, 300, 510, 511, 765, 766}
-			for i := 0; i < l.N(300, 5000); i++ {
+			for i := 0; i < l.N(300, 30000); i++ {
 				p := c04Params{Scenario: scen[rng.Intn(len(scen))], NCols: 1 + rng.Intn(4), ModRate: []float64{0, 0.05, 0.5}[rng.Intn(3)]}
 				p.N1, p.N2 = sizes[rng.Intn(len(sizes))], sizes[rng.Intn(len(sizes))]
 				if rng.Intn(3) == 0 {
